@@ -27,8 +27,15 @@ def r20_1_2(ctx):
     for flag in (True, False):
         I = mk_interp(ctx, inline=lambda call, callee, depth: callee.cls == SUB, max_depth=3)  # private helpers of the class are followed
         outs = I.run_function(f, bind={"file_path": Const("x.json"), "remove_absence_time_list": Const(flag)})
+        full = set(ctx.repo.enums["BaseProjectStatus"])
         for st, ex in outs:
-            conds = [e for e in flatten(st.trace) if isinstance(e, Cond) and "status" in e.text]
+            # the status test, however it is written (directly, through a helper's boolean result): the path condition that
+            # narrowed the loaded project's status
+            sv0 = [v for k, v in st.heap.items() if k[1] == "status" and k[0] != "self" and isinstance(v, EnumSet)]
+            narrowed = bool(sv0) and set(sv0[0].members) != full
+            evs0 = flatten(st.trace)
+            reads = [i for i, e in enumerate(evs0) if isinstance(e, Call) and e.name.endswith("read_simple_json")]
+            conds = [e for e in evs0[(reads[0] if reads else 0):] if isinstance(e, Cond) and e.forked][:1] if narrowed else []
             results.append((flag, st, ex, conds))
     refused = 0
     for flag, st, ex, conds in results:
